@@ -57,7 +57,9 @@ def base_args(rng, kind, table=None):
     elif kind == "PSwitch":
         a = {"rs": u(0.01, 0.5), "ig": u(1e-5, 1e-3), "iis": u(1e-6, 1e-5), "rt": u(1, 50)}
     elif kind == "PMux":
-        a = {"rs": u(0.01, 0.5) if rng.random() < 0.5 else [u(0.01, 0.5), u(0.01, 0.5)], "ig": u(1e-5, 1e-3),
+        # on-resistance forms in turn: scalar, and per-input lists of one, two and three entries
+        r1, r2, r3 = u(0.01, 0.5), u(0.01, 0.5), u(0.01, 0.5)
+        a = {"rs": cyc("pmuxrsform", [r1, [r1, r2], [r1], r1, [r1, r2, r3], [r1, r2]]), "ig": u(1e-5, 1e-3),
              "iis": u(1e-6, 1e-5), "rt": u(1, 50)}
     else:  # Rectifier
         if rng.random() < 0.5:
